@@ -528,25 +528,26 @@ example : ((7 : CellID).toNat % 2 = 1 ∧ (35 : CellID).toNat % 2 = 1 ∧ (7 : C
     fromRange 1 0xC000000000000001 = [fromFace 0, fromFace 1, fromFace 2, fromFace 3, fromFace 4, fromFace 5] := by
   decide
 
-/-! ## (e) CellIndex and s2intersect.Find  — PARTIAL
+/-! ## (e) CellIndex and s2intersect.Find
 
 Models: `S2/CellIndex.lean` (`build`, range iterator, contents iterator with de-duplication),
-`S2/Intersect.lean` (`find`).  The full statements below are NOT proved; they are evaluated on every
+`S2/Intersect.lean` (`find`).  The two full statements below are kept here as `def … : Prop`; they are
+PROVED in `Properties/C11_Index.lean` (`cellIndex_contents_correct`, `find_correct`), together with the
+theorems about the range iterator and the contents iterator.  They are additionally evaluated on every
 run by the oracle judges (`Oracle/C11b.lean`: `judgeRanges`, `judgeSweep`, `judgeFind`) on the
 implementation's own output. -/
 
-/-- FULL STATEMENT (not proved): for all valid cells with labels ≥ 0, the range nodes of `Build` tile
-    `[firstLeaf, endLeaf)` and at EVERY leaf of every range the contents chain is exactly (as a
-    multiset) the set of indexed pairs whose cell contains the leaf, its label set is `labelsAt`.
-    Missing: the LIFO stack invariant of `buildLoop` (pops before pushes at equal startID, larger
-    cells pushed first). -/
+/-- FULL STATEMENT (proved: `cellIndex_contents_correct` in `Properties/C11_Index.lean`): for all valid
+    cells with labels ≥ 0, the range nodes of `Build` tile `[firstLeaf, endLeaf)` and at EVERY leaf of
+    every range the contents chain is exactly (as a multiset) the set of indexed pairs whose cell
+    contains the leaf, its label set is `labelsAt`. -/
 def CellIndex_contents_correct : Prop := S2Proofs.CIdx.CellIndex_contents_correct
 
-/-- FULL STATEMENT (not proved): `Find` on unions of valid cells: index sets have ≥ 2 members and are
-    a leaf `x` covered by an entry with index set `S` has `S = {i | x ∈ cus[i]}` (so entries are
-    disjoint and leaves covered by fewer than two unions are in no entry), and every leaf covered by
-    at least two unions is covered by the entry for exactly its index set.
-    Missing: everything (no theorem about `find`; only the correspondence check + judge). -/
+/-- FULL STATEMENT (proved: `find_correct` in `Properties/C11_Index.lean`): `Find` on unions of valid
+    cells: index sets have ≥ 2 members; a leaf `x` covered by an entry with index set `S` has
+    `S = {i | x ∈ cus[i]}` (so entries are disjoint and leaves covered by fewer than two unions are in no
+    entry), and every leaf covered by at least two unions is covered by the entry for exactly its index
+    set. -/
 def Find_correct : Prop :=
   ∀ cus : List CU, (∀ cu ∈ cus, AllValid cu) →
     (∀ r ∈ Intersect.find cus, 2 ≤ r.indices.length) ∧
@@ -556,26 +557,26 @@ def Find_correct : Prop :=
         ∃ r ∈ Intersect.find cus, r.indices = Intersect.coveringAt cus x ∧ coversLeaf r.cells x = true)
 
 open S2.CellIndex in
-/-- PARTIAL (all inputs): the range nodes of `Build` have strictly increasing start ids, so the ranges
+/-- (ALL inputs, no contract): the range nodes of `Build` have strictly increasing start ids, so the ranges
     `[start_p, start_{p+1})` are non-empty, increasing and contiguous. -/
-theorem cellIndex_ranges_sorted_partial (cells : List (CellID × Int)) :
+theorem cellIndex_ranges_sorted (cells : List (CellID × Int)) :
     (S2Proofs.CIdx.starts (build cells).ranges).Pairwise (· < ·) :=
   S2Proofs.CIdx.build_ranges_sorted cells
 
 open S2.CellIndex in
-/-- PARTIAL (labels ≥ 0, the contract of `Add`): the label tree holds exactly the added pairs, each as
+/-- (labels ≥ 0, the contract of `Add`): the label tree holds exactly the added pairs, each as
     often as it was added. -/
-theorem cellIndex_tree_perm_partial (cells : List (CellID × Int)) (hl : ∀ p ∈ cells, 0 ≤ p.2) :
+theorem cellIndex_tree_perm (cells : List (CellID × Int)) (hl : ∀ p ∈ cells, 0 ≤ p.2) :
     (S2Proofs.CIdx.treePairs (build cells).tree).Perm cells :=
   S2Proofs.CIdx.build_tree_perm cells hl
 
 example : ∀ p ∈ [((0x1000000000000000 : CellID), (3 : Int)), (0x0400000000000000, 0)], 0 ≤ p.2 := by simp
 
 open S2.CellIndex in
-/-- PARTIAL (all inputs): parent links point strictly backwards (or are -1), every range node's
+/-- (ALL inputs, no contract): parent links point strictly backwards (or are -1), every range node's
     `contents` is -1 or a valid node index, and the parent-chain walk of the contents iterator never
     exhausts its fuel `tree.size + 1`. -/
-theorem cellIndex_wellformed_partial (cells : List (CellID × Int)) :
+theorem cellIndex_wellformed (cells : List (CellID × Int)) :
     S2Proofs.CIdx.TreeWF (build cells).tree ∧
     (∀ r ∈ (build cells).ranges.toList, -1 ≤ r.contents ∧ r.contents < ((build cells).tree.size : Int)) ∧
     ∀ r ∈ (build cells).ranges.toList, ∀ extra : Nat,
